@@ -54,7 +54,7 @@ class TypeEnv(object):
             return None
         if re.fullmatch(r'-?\d+', name):
             return int(name)
-        if name in self.cfg and isinstance(self.cfg[name], int):
+        if name in self.cfg and (self.cfg[name] is None or isinstance(self.cfg[name], int)):
             return self.cfg[name]
         m = re.fullmatch(r'(\w+)::(\w+)', name)
         if m and m.group(1) in self.cfg:
@@ -65,7 +65,7 @@ class TypeEnv(object):
             return self.static_eval(self.cls, self.cfg, name)
         # arithmetic like "2 * DIM"
         toks = re.findall(r'[A-Za-z_][\w:]*|\d+|[-+*/()]', name)
-        if toks and ''.join(toks).replace(' ', '') == name.replace(' ', ''):
+        if len(toks) > 1 and ''.join(toks).replace(' ', '') == name.replace(' ', ''):
             vals = []
             for t in toks:
                 if re.fullmatch(r'[-+*/()]|\d+', t):
